@@ -65,5 +65,92 @@ RECIPES = [
     ("C06", "neutral", [], CB, "            refpoint = refpoint_bool[nz].nonzero()[0]", "            refpoint = np.flatnonzero(refpoint_bool[nz])", "_cbcoordchk: flatnonzero"),
     ("C06", "neutral", [], CB, "        kor = kbb[np.ix_(o, refpoint)]\n        koo = kbb[np.ix_(o, o)]\n        rbmodes[o] = -linalg.solve(koo, kor)",
      "        k_or = kbb[np.ix_(o, refpoint)]\n        kor = k_or\n        koo = kbb[np.ix_(o, o)]\n        psi_ = linalg.solve(koo, -k_or)\n        rbmodes[o] = psi_",
-     "_cbcoordchk: sign moved into the right-hand side (value-equal in the algebra; not bit-identical)"),
+     "_cbcoordchk: sign moved into the right-hand side (same numbers; at most the sign of a zero differs)"),
+    ("C06", "neutral", [], CB, "    pv = dof == 1\n    uset.iloc[pv, 1:] *= lengthconv\n    pv = dof == 3\n    uset.iloc[pv, 1:] *= lengthconv",
+     "    length_rows = (dof == 1) | (dof == 3)\n    uset.iloc[length_rows, 1:] *= lengthconv", "uset_convert: one combined row mask"),
+    ("C06", "neutral", [], CB, """    if conv == "m2e":
+        lengthconv = 1 / 0.0254
+        massconv = 0.005710147154735817
+    elif conv == "e2m":
+        lengthconv = 0.0254
+        massconv = 175.12683524637913
+    else:
+        lengthconv, massconv = conv
+    return lengthconv, massconv""", """    named = (("m2e", 1 / 0.0254, 0.005710147154735817), ("e2m", 0.0254, 175.12683524637913))
+    for key, lengthconv, massconv in named:
+        if conv == key:
+            return lengthconv, massconv
+    lengthconv, massconv = conv
+    return lengthconv, massconv""", "_get_conv_factors: table of named conversions, early return from a loop"),
+    ("C06", "neutral", [], CB, """    C = np.ones(lt)
+    D = np.ones(lt)
+    trn = ytools.mkpattvec([0, 1, 2], lb, 6).ravel()
+    rot = trn + 3
+    C[b[trn]] = 1 / lengthconv
+    D[b[trn]] = massconv * lengthconv
+    D[b[rot]] = massconv * lengthconv**2
+    if lq > 0:
+        q = locate.flippv(b, lt)
+        c = math.sqrt(massconv) * lengthconv
+        C[q] = 1 / c
+        D[q] = c
+    M = ytools.multmd(M, C)
+    if not drm:
+        M = ytools.multmd(D, M)
+    return M""", """    diag = {"disp": np.ones(lt), "force": np.ones(lt)}
+    trn = ytools.mkpattvec([0, 1, 2], lb, 6).ravel()
+    blocks = [("disp", b[trn], 1 / lengthconv), ("force", b[trn], massconv * lengthconv), ("force", b[trn + 3], massconv * lengthconv**2)]
+    if lq > 0:
+        q = locate.flippv(b, lt)
+        c = math.sqrt(massconv) * lengthconv
+        blocks += [("disp", q, 1 / c), ("force", q, c)]
+    for which, dof, factor in blocks:
+        diag[which][dof] = factor
+    result = ytools.multmd(M, diag["disp"])
+    return result if drm else ytools.multmd(diag["force"], result)""", "cbconvert: diagonals kept in a dict and filled from a list of blocks"),
+    ("C06", "neutral", [], CB, """    if z_m.any():
+        v2 = np.empty((z_m.shape[0], v.shape[1]))
+        v2[nz_m, :] = v
+        v2[z_m, :] = psi @ v
+        v = v2
+
+    if z.any():
+        v2 = np.empty((z.shape[0], v.shape[1]))
+        v2[nz, :] = v
+        v2[z, :] = 0.0
+        v = v2
+""", """    def expand(vecs, kept, removed, fill):
+        big = np.empty((removed.shape[0], vecs.shape[1]))
+        big[removed, :] = fill
+        big[kept, :] = vecs
+        return big
+
+    if z_m.any():
+        v = expand(v, nz_m, z_m, psi @ v)
+
+    if z.any():
+        v = expand(v, nz, z, 0.0)
+""", "_solve_eig: expansion through a nested helper"),
+    ("C06", "neutral", [], CB, """    _wrtground(f, uset, rbfs, rbs.T @ rbfs, "stiffness")
+    _wrtground(f, uset, rbfg, rbg.T @ rbfg, "geometry")
+    _wrtground(f, uset, rbfe, rbe.T @ rbfe, "eigensolution")
+""", """    for rbtype, (rb, rbf) in {"stiffness": (rbs, rbfs), "geometry": (rbg, rbfg), "eigensolution": (rbe, rbfe)}.items():
+        _wrtground(f, uset, rbf, rb.T @ rbf, rbtype)
+""", "cbcheck: grounding report through a table keyed by label"),
+    ("C06", "neutral", [], CB, """    return SimpleNamespace(
+        m=m,
+        k=k,
+        bset=bset,
+        rbs=rbs,
+        rbg=rbg,
+        rbe=rbe,
+        uset=uset,
+        effmass=effmass,
+        effmass_percent=effmass_percent,
+        cb_frq=frq,
+    )""", """    out = SimpleNamespace(m=m, k=k, bset=bset, uset=uset)
+    for name, modes in zip(("rbs", "rbg", "rbe"), (rbs, rbg, rbe)):
+        setattr(out, name, modes)
+    out.effmass, out.effmass_percent, out.cb_frq = effmass, effmass_percent, frq
+    return out""", "cbcheck: namespace filled with setattr in a loop"),
 ]
